@@ -141,7 +141,7 @@ PROPS.update({
         "c03_portgraph_many_then_single_on_good_patterns - on automata that use keys of the first index root only (every set of single-root patterns) the "
         "modelled run and the modelled one-pattern matcher report the same matches of a good pattern, bindings included (a reported match is turned back into an "
         "embedding, Proofs/PGAgree.v); outside that class refuted (D10). Every domain: c03_recorded_keys_are_the_single_matcher_keys - the key list add_pattern records for a "
-        "pattern (Model/Scopes.v, compared with every dump) has the same elements as the keys SinglePatternMatcher requests.",
+        "pattern (Model/Scopes.v, compared with every dump) has the same elements as the keys SinglePatternMatcher requests; c03_dump_records_the_single_matcher_keys.",
         "verified certificates (sound + complete) on the real automaton + Coq proof that run and naive matcher both equal the occurrence specification "
         "(strings) + ManyMatcher vs NaiveManyMatcher differential", ["c03", "pg03", "tab03", "pgm"]),
     "C04": aut_prop("translation_validation",
@@ -178,7 +178,7 @@ PROPS.update({
         "automaton built, for all enumerated heuristic answer sequences - all states, not only those a host visits. The last sentence of the property is also proved of "
         "the algorithm: Model/Scopes.v models AutomatonBuilder::populate_scopes / compute_scopes and add_pattern's key list; "
         "c09_populate_scopes_ordered_and_covering (on every transition graph, in any processing order, the scopes are prerequisite-first, repetition-free and contain the "
-        "keys of the state's constraints) and c09_pattern_keys_ordered_and_covering; the model recomputes scopes (as sets) and recorded key lists (exactly) on every dump "
+        "keys of the state's constraints) and c09_pattern_keys_ordered_and_covering; c09_recorded_keys_cover_the_pattern, c09_recorded_scopes_cover_the_constraints (the covering clause for the dumped automaton follows from the tie); the model recomputes scopes and recorded key lists on every dump and compares them as sets "
         "(case fields scopes / mkeys; strings, matrices, the table domain and port graphs; under the other properties these two fields are information only).",
         "verified structural checker (Coq soundness proof) run on the dump of every real automaton + Coq model of the scope computation compared with every dump", ["c09", "tab09", "pg09"]),
     "C05": {"subs": ["c05", "pg05", "pgm", "parse"], "level": "proof", "rule": AUT_RULE + "; for C05 each (pattern, host) pair is one case",
@@ -195,7 +195,7 @@ PROPS.update({
                        "evaluated on the pattern of every miss classified as a known finding (must be 0). Text front end (glue in front of the baselines): Model/Parse.v models "
                        "StringPattern::parse_str and MatrixPattern::parse_str (lines, Unicode white space, $x variables, - holes, the panic on a trailing $); compared through "
                        "try_to_constraint_vec on random texts (sub-check parse); c05_string_parse_print / c05_string_print_parse / c05_matrix_parse_print (printing and parsing are "
-                       "mutually inverse), c05_string_parse_fails_only_on_trailing_dollar.",
+                       "mutually inverse), c05_string_parse_fails_only_on_trailing_dollar, c05_matrix_parse_fails_only_on_trailing_dollar.",
         "technique": "Coq proof on the model of the single-pattern matcher (strings and matrices: exact set of anchors) + differential correspondence with that model + occurrence oracle"},
     "C11": {"subs": ["c11", "pg11", "pgm"], "level": "proof",
         "rule": "random patterns (as for C01) inside sets of 1-4 patterns; each pattern is matched against its own instantiation (variables instantiated "
